@@ -105,13 +105,13 @@ Fixpoint has_nil (t : tv) : bool :=
 Definition panic_nil_deref : N := 1.
 Definition panic_index : N := 2.
 
-(** DEFECT C19_1 (value.Equal dereferences nil): [true] mirrors the code as it
-    is now -- the DoubleVal arm reads [b.Value] without the nil-safe getter, and
-    the DecimalVal / LeaflistVal arms read fields of a possibly nil inner
-    message.  Once fixes/C19_1_equal_nil_deref.diff is in, set this to
-    [false]: the nil pointer then counts as "not a double" and a nil inner
-    message as the empty message. *)
-Definition defect_C19_1 : bool := true.
+(** DEFECT C19_1 (value.Equal dereferenced nil), FIXED in /repo by b28d6aa.
+    With [true] the model is the code before the fix: the DoubleVal arm read
+    [b.Value] without the nil-safe getter, and the DecimalVal / LeaflistVal
+    arms read fields of a possibly nil inner message.  [false] is the code as
+    it is now: the nil pointer counts as "not a double" and a nil inner message
+    as the empty message (nil-safe getters). *)
+Definition defect_C19_1 : bool := false.
 
 (** the element loop of the LeaflistVal arm: early exit on the first
     difference, a panic of an element comparison propagates *)
@@ -155,7 +155,7 @@ Fixpoint equal_gen (d : bool) (a b : tv) {struct a} : outcome bool :=
   | TVBytes x => match b with TVBytes y => Ok (String.eqb x y) | _ => Ok false end
   | TVDouble x =>
       match b with
-      | TVnil => if d then Panic panic_nil_deref   (* DEFECT C19_1: b.Value on nil b *)
+      | TVnil => if d then Panic panic_nil_deref   (* before b28d6aa: b.Value on nil b *)
                  else Ok false
       | TVDouble y => Ok (f64_eq x y)
       | _ => Ok false
@@ -259,12 +259,13 @@ Fixpoint from_scalar (x : gscalar) : outcome tv :=
   | GDecimalFloat _ _ | GDeprecated _ _ | GOther => Err err_non_scalar
   end.
 
-(** DEFECT C19_2 (value.ToScalar dereferences nil): the default arm formats
-    [tv.Value] of a nil [tv], and decimalToFloat reads [d.Digits] of a nil
-    [*Decimal64].  Once fixes/C19_2_toscalar_nil_deref.diff is in, set this to
-    [false]: a nil value is then the "non-scalar type" error and a nil decimal is
-    the zero decimal. *)
-Definition defect_C19_2 : bool := true.
+(** DEFECT C19_2 (value.ToScalar dereferenced nil), FIXED in /repo by e8be1b1.
+    With [true] the model is the code before the fix: the default arm formatted
+    [tv.Value] of a nil [tv] (also for a nil leaf-list element), and
+    decimalToFloat read [d.Digits] of a nil [*Decimal64].  [false] is the code
+    as it is now: a nil value is the "non-scalar type" error and a nil decimal
+    is the zero decimal. *)
+Definition defect_C19_2 : bool := false.
 
 (** [jv] is encoding/json's verdict on a byte string (json.Unmarshal into an
     empty interface fails exactly on invalid JSON); an external oracle. *)
